@@ -358,9 +358,23 @@ func (k *ExtendedKey) Neuter() (*ExtendedKey, error) {
 	// Convert it to an extended public key.  The key for the new extended
 	// key will simply be the pubkey of the current extended private key.
 	//
+	// The new key gets its own copies of the public key, chain code and
+	// parent fingerprint: sharing the buffers of the private key would let
+	// Zero on either key wipe the other one.
+	//
 	// This is the function N((k,c)) -> (K, c) from [BIP32].
-	return NewExtendedKey(version, k.pubKeyBytes(), k.chainCode, k.parentFP,
+	pubKey := cloneBytes(k.pubKeyBytes())
+	chainCode := cloneBytes(k.chainCode)
+	parentFP := cloneBytes(k.parentFP)
+	return NewExtendedKey(version, pubKey, chainCode, parentFP,
 		k.depth, k.childNum, false), nil
+}
+
+// cloneBytes returns a copy of b in freshly allocated memory.
+func cloneBytes(b []byte) []byte {
+	c := make([]byte, len(b))
+	copy(c, b)
+	return c
 }
 
 // ECPubKey converts the extended key to a bchec public key and returns it.
